@@ -54,13 +54,13 @@ IMR_VALUES = [0x00, 0x01, 0x04, 0x0F, 0x80, 0x81, 0x84, 0x8F, 0xFF]
 KEYS = ["KEY_Q", "KEY_A", "KEY_F1"]
 
 
-def scenario(main, body, imr0, timer, kb_irq=True, reti=b"\x01"):
-    reset = bytes([0x0F]) + le3(0xB9000) + bytes([0x0E]) + le3(0xBA000) + bytes([0x32, 0xCC, 0xF0, 0xFF, 0x32, 0xCC, 0xFB, imr0])
+def scenario(main, body, imr0, timer, kb_irq=True, reti=b"\x01", s0=0xB9000):
+    reset = bytes([0x0F]) + le3(s0) + bytes([0x0E]) + le3(0xBA000) + bytes([0x32, 0xCC, 0xF0, 0xFF, 0x32, 0xCC, 0xFB, imr0])
     main_addr = ROM_BASE + len(reset)
     code = reset + MAINS[main]
     handler = bytes([0x00]) + BODIES[body] + bytes(reti)     # reti: RETI, possibly behind a PRE byte
     pieces = [[ROM_BASE, code.hex()], [HANDLER, handler.hex()], [VECTOR, le3(HANDLER).hex()], [ENTRY, le3(ROM_BASE).hex()]]
-    return {"code": pieces, "regs": {"PC": ROM_BASE, "S": 0xB9000, "U": 0xBA000}, "imem": {0xFB: 0, 0xFC: 0},
+    return {"code": pieces, "regs": {"PC": ROM_BASE, "S": s0, "U": 0xBA000}, "imem": {0xFB: 0, 0xFC: 0},
             "timer": dict(timer, kb_irq=kb_irq), "main": main, "body": body, "imr0": imr0, "main_addr": main_addr,
             "reti": bytes(reti).hex()}
 
@@ -158,6 +158,9 @@ def check_run(res, model, scen, script, observations, err):
         sig = {"clause": clause, "model": model, "main": scen["main"]}
         if "fields" in detail:
             sig["fields"] = detail["fields"]
+        if clause == "status_bit_dropped_while_sleeping":
+            sig["power"] = detail.get("power")
+            sig["in_handler"] = detail.get("in_handler")
         if clause == "pending_unmasked_request_not_delivered" and model == "py":
             # where the model's private pending flag was last dropped (distinguishes mechanisms of the same clause)
             sig["flag_dropped_at"] = detail.get("flag_dropped_at")
@@ -180,6 +183,10 @@ def run_jobs(res, jobs):
     routs = machine.run_rust(jobs, kc)
     for (scen, script), (robs, rerr, _) in zip(jobs, routs):
         res.evaluations += 2
+        if scen.get("rust_only"):
+            if check_run(res, "rs", scen, script, robs, rerr):
+                res.nontrivial("rs", scen["main"], scen["body"], scen["imr0"], repr(scen["timer"]), scen["regs"]["S"])
+            continue
         py = machine.PyMachine(scen)
         pobs = py.run(script)
         ok_p = check_run(res, "py", scen, script, pobs, None)
@@ -236,6 +243,10 @@ def plan(tier, seed):
     nen = 16 if tier == "quick" else 48
     for i in range(nen):
         specs.append({"kind": "enum", "part": i, "parts": nen, "seed": seed, "tier": tier, "idx": idx}); idx += 1
+    nph = 4 if tier == "quick" else 16
+    for i in range(nph):
+        specs.append({"kind": "phase", "part": i, "parts": nph, "seed": seed, "tier": tier, "idx": 9100 + i})
+    specs.append({"kind": "stackedge", "seed": seed, "tier": tier, "idx": 9200})
     nr = 16 if tier == "quick" else 48
     for i in range(nr):
         specs.append({"kind": "random", "part": i, "parts": nr, "seed": seed, "tier": tier, "idx": idx}); idx += 1
@@ -278,6 +289,35 @@ def run_shard(spec) -> Result:
     elif spec["kind"] == "keyhandler":
         run_key_during_handler(res, tier)
         return res
+    elif spec["kind"] == "phase":
+        # no external events at all: every timer period against every main loop, so that an expiry lands on every
+        # instruction of the loop (in particular on the HALT/OFF/WAIT instruction's own cycle) with the source enabled
+        k = 0
+        for main in MAINS:
+            for body in (("empty", "clear_isr", "zero", "reenable") if tier == "thorough" else ("empty", "zero")):
+                for imr0 in ((0x81, 0x83, 0x8F, 0x82, 0x03) if tier == "thorough" else (0x81, 0x8F)):
+                    for mti in range(1, 14 if tier == "thorough" else 10):
+                        for sti in ((0, 3, 7, 11) if tier == "thorough" else (0, 7)):
+                            k += 1
+                            if k % spec["parts"] != spec["part"]:
+                                continue
+                            scen = scenario(main, body, imr0, {"enabled": True, "mti": mti, "sti": sti})
+                            jobs.append((scen, build_script(70, {})))
+        res.count("phase_sweep_runs", len(jobs))
+    elif spec["kind"] == "stackedge":
+        # the interrupt frame (and, with a handler that re-enables interrupts, the nested frames 5, 10, ... bytes below it)
+        # placed on every alignment across both edges of a RAM overlay inside main RAM (both models; Python has plain
+        # RAM there) and of the memory card (Rust only: Python has nothing mapped below 0x40000)
+        for body in ("empty", "reenable", "touch"):
+            for main in ("busy", "halt"):
+                for d in range(-3, 14):
+                    for base, extra in ((0xB8F80, {"overlays": [[0xB8F80, 0x40]]}), (0xB8FC0, {"overlays": [[0xB8F80, 0x40]]}),
+                                        (0x40000, {"card": 8192, "rust_only": True}),
+                                        (0x42000, {"card": 8192, "rust_only": True})):
+                        scen = scenario(main, body, 0x8F, {"enabled": True, "mti": 3, "sti": 0}, s0=base + d)
+                        scen.update(extra)
+                        jobs.append((scen, build_script(40, {})))
+        res.count("stack_edge_runs", len(jobs))
     elif spec["kind"] == "valgrind":
         # the raw-pointer bus of CoreRuntime::step and the raw TimerContext pointer of the IMR/ISR hook under memcheck
         vj = []
